@@ -321,6 +321,35 @@ static void do_long(long idx)
     free(x); free(y); free(a0); free(b0); free(d);
 }
 
+/* sodium_stackzero(len) must clear the len bytes of dead stack below its caller: a pattern is left there by a helper that has returned, then
+ * looked for again.  The two helpers' frames start within a few hundred bytes of each other, so the range [512, len - 512) below the pattern's
+ * top lies inside what must have been wiped. */
+static volatile uintptr_t sz_lo, sz_hi;
+__attribute__((noinline)) static void stack_fill(size_t depth)
+{
+    volatile unsigned char a[depth]; size_t i;
+    for (i = 0; i < depth; i++) a[i] = 0xa5;
+    sz_lo = (uintptr_t) &a[0]; sz_hi = sz_lo + depth;
+    __asm__ __volatile__("" ::: "memory");
+}
+__attribute__((noinline)) static size_t stack_count(uintptr_t lo, uintptr_t hi)
+{
+    size_t n = 0; const volatile unsigned char *p;
+    for (p = (const volatile unsigned char *) lo; p < (const volatile unsigned char *) hi; p++) if (*p == 0xa5) n++;
+    return n;
+}
+__attribute__((noinline)) static void stackzero_case(size_t len)
+{
+    size_t left, before; char key[96];
+    stack_fill(len + 2048);
+    before = stack_count(sz_hi - len + 512, sz_hi - 512);
+    sodium_stackzero(len);
+    left = stack_count(sz_hi - len + 512, sz_hi - 512);
+    n_eval++; n_nontriv++;
+    if (before < len - 1024 - 600) { snprintf(key, sizeof key, "sodium_stackzero/len=%zu/harness", len); printf("INFO stackzero probe at len=%zu could not place its pattern (%zu of %zu bytes): not judged\n", len, before, len - 1024); return; }
+    if (left != 0) { snprintf(key, sizeof key, "sodium_stackzero/len=%zu", len); vf_fail(key, "%zu pattern bytes of the dead stack within the %zu bytes below the caller survived the wipe", left, len); }
+}
+
 static void fin(void) { vf_stat("evaluations", n_eval); vf_stat("nontrivial", n_nontriv); }
 
 int main(void)
@@ -329,6 +358,7 @@ int main(void)
     thorough = vf_tier_thorough();
     if (sodium_init() < 0) return 2;
     sodium_stackzero(0); sodium_stackzero(1); sodium_stackzero(4096);
+    { static const size_t SZ[] = { 1100, 2048, 4095, 4096, 4097, 5000, 8192, 8193, 12288, 65536, 65537, 262144, 1048576 }; unsigned i; for (i = 0; i < sizeof SZ / sizeof SZ[0]; i++) stackzero_case(SZ[i]); }
     vf_parallel(16, 0, MAXL + 1, do_len, fin);
     vf_parallel(16, 0, 512, do_small, fin);
     vf_parallel(16, 0, (long) (sizeof LONGL / sizeof LONGL[0]), do_long, fin);
